@@ -143,6 +143,7 @@ pub fn gen_straddle_plan(r: &mut Rng, ints_only: bool) -> Plan {
                 pull_params: None,
                 pull_skip: 0,
                 mixed_rows: 0,
+                ret_panic: false,
             }),
         },
         Cmd {
@@ -280,6 +281,7 @@ fn gen_c04(r: &mut Rng, tier: Tier, job: u64) -> Plan {
                     pull_params: None,
                     pull_skip: 0,
                     mixed_rows: 0,
+                    ret_panic: false,
                 }),
             });
         }
@@ -358,6 +360,7 @@ fn gen_c04(r: &mut Rng, tier: Tier, job: u64) -> Plan {
                     pull_params: None,
                     pull_skip: 0,
                     mixed_rows: 0,
+                    ret_panic: false,
                 }),
             });
         }
@@ -382,6 +385,7 @@ fn gen_c04(r: &mut Rng, tier: Tier, job: u64) -> Plan {
                     pull_params: None,
                     pull_skip: 0,
                     mixed_rows: 0,
+                    ret_panic: false,
                 }),
             });
         }
@@ -443,6 +447,7 @@ fn gen_c04(r: &mut Rng, tier: Tier, job: u64) -> Plan {
                         pull_params: None,
                         pull_skip: 0,
                         mixed_rows: 0,
+                        ret_panic: false,
                     }),
                 });
             }
@@ -540,6 +545,7 @@ fn gen_c04_tls(r: &mut Rng) -> Plan {
             pull_params: None,
             pull_skip: 0,
             mixed_rows: 0,
+            ret_panic: false,
         };
         if binary {
             let id = 1 + cmds.len() as u32;
@@ -869,6 +875,7 @@ fn c15_plan(cells: Vec<(Cell, u8, bool)>, r: &mut Rng) -> Plan {
                 pull_params: None,
                 pull_skip: 0,
                 mixed_rows: 0,
+                ret_panic: false,
             }),
         },
     ];
@@ -955,6 +962,7 @@ pub fn gen_c15_text_carry_on(r: &mut Rng) -> Plan {
                 pull_params: None,
                 pull_skip: 0,
                 mixed_rows: 0,
+                ret_panic: false,
             }),
         },
         Cmd {
@@ -1025,6 +1033,7 @@ pub fn gen_c15_mixed_rows(r: &mut Rng) -> Plan {
                 pull_params: None,
                 pull_skip: 0,
                 mixed_rows: 1 + r.below(ncols as u64 - 1) as u8,
+                ret_panic: false,
             }),
         },
     ];
